@@ -65,6 +65,8 @@ pub fn run(job: &Job) -> Result<u32, (&'static str, PanicInfo)> {
         ($bit:expr, $body:expr) => {
             if on($bit) {
                 calls += 1;
+                pmtiles2::util::verif_counters::EXPANDED_TILES.store(0, std::sync::atomic::Ordering::Relaxed);
+                pmtiles2::util::verif_counters::DIRECTORIES_READ.store(0, std::sync::atomic::Ordering::Relaxed);
                 if let Err(p) = catch(|| $body) {
                     return Err((API_NAMES[$bit as usize], p));
                 }
